@@ -557,6 +557,25 @@ class History:
                 self.labels.add('permanent')
             self._changed_since_hit = True
         self._note_dispatchers()
+        self._check_flags(f'after op {op}')
+
+    def _check_flags(self, where):
+        """The public `enabled` attribute must agree with the model after
+        every step; a disagreement is reported once and the model follows
+        sc3 so that later steps are judged from the real state."""
+        for m in self.rs:
+            got = bool(m.obj.enabled)
+            if got == m.enabled:
+                continue
+            desc = (f'{where}: responder {m.rid} ({m.kind} {m.path!r} '
+                    f'permanent={m.permanent}) has enabled={got}, expected '
+                    f'{m.enabled}')
+            if m.quirk_hit and not got:
+                self.v.fail('permanent_freed_by_cmdperiod', desc)
+                m.freed = True
+            else:
+                self.v.fail('enabled_flag_disagrees', desc)
+            m.enabled = got
 
     # ---- delivering ---------------------------------------------------------
 
@@ -606,6 +625,7 @@ class History:
         errors = [r for r in cap.records[e0:]]
         self._judge(expect_msgs, times, sender, iface.port, entries, errors,
                     t0, t1)
+        self._check_flags(f'after delivering {expect_msgs!r}')
 
     def _judge(self, expect_msgs, times, sender, port, entries, errors,
                t0, t1):
@@ -1594,6 +1614,7 @@ def _slug(err):
         ('empty packet', 'not_a_packet'),
         ('neither a message', 'not_a_packet'),
         ('missing type tag', 'missing_type_tags'),
+        ('out of range', 'bad_value'),
         ('truncated', 'truncated'),
     ]
     import re
@@ -1675,6 +1696,11 @@ def run_datagram(case, v):
     except osc_ref.OscDecodeError as e:
         ref = None
         reason = _slug(e)
+    except ValueError:
+        # e.g. a 'c' argument above 0x10FFFF: not a character, refused by
+        # the reference decoder with a bare ValueError
+        ref = None
+        reason = 'bad_value'
     finally:
         sys.setrecursionlimit(limit)
     if depth > 16 and ref is not None:
@@ -2020,6 +2046,10 @@ def classify_known(stage, case, viol):
                 return DEV2GROUP.get(d)
             if dev in devs and all(grp(d) in known for d in devs):
                 return grp(dev)
+            # a 'c' value that is no character: the walk sees nothing, the
+            # reference refuses the value, sc3 skipped the tag (as above)
+            if dev == 'other' and not devs and skipped:
+                return 'nonconforming_message_accepted'
         return None
     return None
 
